@@ -74,15 +74,19 @@ def main():
         try:
             meta["notes"] = json.load(open(os.path.join(a.src, "notes.json")))
         except Exception:  # noqa: BLE001
-            meta["notes"] = None
+            try:        # re-evaluation of a stored change: the notes are inside its meta.json
+                meta["notes"] = json.load(open(os.path.join(a.src, "meta.json"))["notes"]
+            except Exception:  # noqa: BLE001
+                meta["notes"] = None
         meta["ran"] = [f"demo.py on clean worktree (rc {rc0})", "git apply patch.diff", f"unit tests: {meta['unit_tests']}",
                        f"demo.py on patched worktree (rc {rc1})"] + [f"VERIF_REPO=<patched worktree> ./check {c} --tier {a.tier}"
                                                                     for c in checks]
         if confirmed:
             dst = os.path.join(V, "seeded", a.name)
             os.makedirs(dst, exist_ok=True)
-            shutil.copy(os.path.join(a.src, "patch.diff"), dst)
-            shutil.copy(demo, dst)
+            if os.path.realpath(a.src) != os.path.realpath(dst):
+                shutil.copy(os.path.join(a.src, "patch.diff"), dst)
+                shutil.copy(demo, dst)
             with open(os.path.join(dst, "meta.json"), "w") as f:
                 json.dump(meta, f, indent=1)
         print(json.dumps(meta, indent=1))
